@@ -51,6 +51,10 @@ func observe[T order[T]](a, b T) obs {
 	return obs{a.Before(b), a.After(b), a.Equals(b), b.Before(a), b.After(a), b.Equals(a)}
 }
 
+func (o obs) String() string {
+	return fmt.Sprintf("a.Before(b)=%v a.After(b)=%v a.Equals(b)=%v b.Before(a)=%v b.After(a)=%v b.Equals(a)=%v", o.B, o.A, o.E, o.RB, o.RA, o.RE)
+}
+
 func b2i(b bool) int {
 	if b {
 		return 1
@@ -97,6 +101,10 @@ type tri struct{ Bab, Bbc, Bac, Aab, Abc, Aac, Eab, Ebc, Eac bool }
 
 func observe3[T order[T]](a, b, c T) tri {
 	return tri{a.Before(b), b.Before(c), a.Before(c), a.After(b), b.After(c), a.After(c), a.Equals(b), b.Equals(c), a.Equals(c)}
+}
+
+func (t tri) String() string {
+	return fmt.Sprintf("Before ab=%v bc=%v ac=%v  After ab=%v bc=%v ac=%v  Equals ab=%v bc=%v ac=%v", t.Bab, t.Bbc, t.Bac, t.Aab, t.Abc, t.Aac, t.Eab, t.Ebc, t.Eac)
 }
 
 func (t tri) sound() bool {
@@ -757,14 +765,14 @@ func replay(r *vk.Run) {
 			return
 		}
 		o := observe(p.A.lib(), p.B.lib())
-		fmt.Printf("a=%v b=%v\n library:   %+v\n reference: a is %s b\n", p.A, p.B, o, relName[refHHmm(p.A, p.B)+1])
+		fmt.Printf("a=%v b=%v\n library:   %v\n reference: a is %s b\n", p.A, p.B, o, relName[refHHmm(p.A, p.B)+1])
 		checkHHmmPair(r, p.A, p.B)
 	case "hhmm-triple":
 		var p hmTriple
 		if bad(json.Unmarshal(c, &p)) {
 			return
 		}
-		fmt.Printf("a=%v b=%v c=%v\n library:   %+v\n reference: Before, After and Equals are transitive\n", p.A, p.B, p.C, observe3(p.A.lib(), p.B.lib(), p.C.lib()))
+		fmt.Printf("a=%v b=%v c=%v\n library:   %v\n reference: Before, After and Equals are transitive\n", p.A, p.B, p.C, observe3(p.A.lib(), p.B.lib(), p.C.lib()))
 		checkHHmmTriple(r, p.A, p.B, p.C)
 	case "date-pair":
 		var p datePair
@@ -773,7 +781,7 @@ func replay(r *vk.Run) {
 		}
 		da, _ := mk(p.A)
 		db, _ := mk(p.B)
-		fmt.Printf("a=%v b=%v\n library:   %+v\n reference: ordinals %d and %d, a is %s b\n", p.A, p.B, observe(da, db), p.A.ord(), p.B.ord(), relName[cmpInt(p.A.ord(), p.B.ord())+1])
+		fmt.Printf("a=%v b=%v\n library:   %v\n reference: ordinals %d and %d, a is %s b\n", p.A, p.B, observe(da, db), p.A.ord(), p.B.ord(), relName[cmpInt(p.A.ord(), p.B.ord())+1])
 		checkDatePair(r, p.A, p.B)
 	case "date-triple":
 		var p dateTriple
@@ -783,7 +791,7 @@ func replay(r *vk.Run) {
 		da, _ := mk(p.A)
 		db, _ := mk(p.B)
 		dc, _ := mk(p.C)
-		fmt.Printf("a=%v b=%v c=%v\n library:   %+v\n reference: Before, After and Equals are transitive\n", p.A, p.B, p.C, observe3(da, db, dc))
+		fmt.Printf("a=%v b=%v c=%v\n library:   %v\n reference: Before, After and Equals are transitive\n", p.A, p.B, p.C, observe3(da, db, dc))
 		checkDateTriple(r, p.A, p.B, p.C)
 	case "date-zero":
 		var d ymd
@@ -845,10 +853,14 @@ func main() {
 		}
 	}
 
-	runHHmm(r)
-	runDates(r)
-	runDateTimes(r)
-	runProfiles(r)
+	for _, part := range []struct {
+		name string
+		run  func(*vk.Run)
+	}{{"hhmm", runHHmm}, {"dates", runDates}, {"datetimes", runDateTimes}, {"profiles", runProfiles}} {
+		t0 := time.Now()
+		part.run(r)
+		r.Set("wall_s_"+part.name, time.Since(t0).Seconds())
+	}
 
 	r.Rule("HH:mm: every ordered pair of the 1441 values 00:00..24:00, every triple over the boundary set; " +
 		"dates: every day 0001-01-02..9999-12-31 paired (both orders) with itself and with the day k days later for every k in date_sweep_distances_days, " +
